@@ -20,6 +20,27 @@ class Budget(Exception):
     pass
 
 
+_hq = {}
+
+
+def has_quantifier(t):
+    k = t.get_id()
+    r = _hq.get(k)
+    if r is None:
+        r = _has_q(t, set())
+        _hq[k] = r
+    return r
+
+
+def _has_q(t, seen):
+    if t.get_id() in seen:
+        return False
+    seen.add(t.get_id())
+    if z3.is_quantifier(t):
+        return True
+    return any(_has_q(c, seen) for c in t.children())
+
+
 class SolverCache:
     def __init__(self, timeout_ms=4000):
         self.cache = {}
@@ -30,10 +51,10 @@ class SolverCache:
 
     def check(self, terms, timeout_ms=None):
         """'sat' / 'unsat' / 'unknown' for the conjunction of terms."""
-        key = tuple(sorted(t.sexpr() for t in terms))
+        key = tuple(sorted(t.get_id() for t in terms))
         r = self.cache.get(key)
         if r is not None:
-            return r
+            return r[0]
         s = z3.Solver()
         s.set('timeout', timeout_ms or self.timeout_ms)
         for t in terms:
@@ -44,7 +65,7 @@ class SolverCache:
         self.calls += 1
         if r == 'unknown':
             self.unknown += 1
-        self.cache[key] = r
+        self.cache[key] = (r, terms)    # terms kept alive: AST ids stay valid
         return r
 
 
@@ -92,8 +113,14 @@ class Ctx:
             raise PathEnd()
         self.pc.append(t)
 
+
+
     def feasible(self, extra=None):
-        terms = self.pc + ([extra] if extra is not None else [])
+        """Pruning only: quantified hypotheses are left out (a weaker path condition can only keep
+        more paths alive; their obligations are discharged later against the full hypotheses)."""
+        terms = [t for t in self.pc if not has_quantifier(t)]
+        if extra is not None:
+            terms.append(extra)
         r = self.cache.check(terms)
         return r != 'unsat'
 
@@ -144,6 +171,12 @@ class Ctx:
             goal = z3.BoolVal(goal)
         elif hasattr(goal, 't'):
             goal = goal.t
+        hook = getattr(self, 'known_hook', None)
+        if hook is not None:
+            ex = hook(name)
+            if ex is not None:
+                goal = z3.Or(ex, goal)
+                info = dict(info or {}, excluded_by_known_finding=True)
         self.obligations.append(Obligation(name, self.pc, goal, line, kind, tuple(self.trace), info))
 
     def note(self, s):
@@ -187,6 +220,10 @@ def explore(run, cache=None, max_paths=4000):
             res.budget = str(e)
         except Unsupported as e:
             res.unsupported.append(str(e))
+            import os
+            if os.environ.get('PYVC_TRACE'):
+                import traceback
+                traceback.print_exc()
         res.paths += 1
         res.obligations.extend(ctx.obligations)
         res.covers |= ctx.covers
